@@ -355,7 +355,10 @@ def main():
     if h_ok:
         # a broken proof or tie widens the search (thorough budget) for a failing input
         search_tier = tier if p_ok else "thorough"
-        E = explore_many(prop, search_tier if P.get("driver_ok", True) else tier, seed, log)
+        # (a search triggered by a broken proof uses the thorough budget on ONE seed; the thorough
+        # tier itself explores several seeds in parallel)
+        st = search_tier if P.get("driver_ok", True) else tier
+        E = explore_many(prop, st, seed, log) if tier == "thorough" else explore(prop, st, seed, log)
         for line in E["cases"]:
             i = line.partition(" ")[0]
             a, b = E["impl"].get(i), E["model"].get(i)
